@@ -10,7 +10,7 @@ from fractions import Fraction
 
 from . import twin
 
-PRESENT = ["list", "ndarray", "tuple"]
+PRESENT = ["list", "ndarray", "tuple", "fortran"]
 LABELS = [None, "step", "mix it", "two\nlines", "transfer_7", "x" * 20, ""]
 
 
